@@ -24,7 +24,9 @@ RULE = ("prog: 2..6 flows, each waits for `match E(<subset of the payload, occas
         "and stop them on the same event (identical non-Start events of different action instances). score: two match statements (0..8 mentioned "
         "parameters, priority pool) against one event through the real _compute_event_comparison_score, float order vs the exact order of "
         "prio*(num/den)^k (Lean mcmp). non-trivial = some recorded call has >= 2 heads in one loop, or a score pair that differs in k or priority; "
-        "distinct = distinct case JSON.")
+        "distinct = distinct case JSON. Phase 4: 10% low-priority programs (priority 0.05..0.3, 4..10 event parameters, neighbouring specificity levels); "
+        "shape `borrow` (the flow sends the Start event of an action it holds by reference only); `@loop(\"NEW\")` programs; two keyword arguments written "
+        "in either order; 4% restart programs (sharers of one action send its Start event again against a fresh instance).")
 TRUSTED_BASE = [
     "record/replay harness harness/props/C05.py (recorders around _resolve_action_conflicts/_abort_flow/random.choice, rank mapping of floats, "
     "event keys = canonical JSON of name+arguments) + Lean driver Drive/C05.lean",
@@ -33,14 +35,17 @@ TRUSTED_BASE = [
 ]
 ASSUMPTIONS = [
     "head uids handed to _resolve_action_conflicts are pairwise distinct (checked on every recorded call)",
-    "a competing action uid is present in its flow's action_uids and in state.actions (list.index / del would raise otherwise; not modelled)",
-    "modelled by hand: _resolve_action_conflicts (with the repairs of fixes/C05-shared-action-cowin.diff — applied — and fixes/C05-identical-event-of-different-actions.diff); get_event_from_element, _abort_flow, "
+    "the look-ups of the co-winner branch (action_uids.index, del state.actions[uid]) succeed when the competing flow owns its action and the uid is still "
+    "in state.actions (theorem cowin_lookups_succeed; modelled as-is by cowinStepAsIs); where they do not: findings cowin-on-borrowed-action, cowin-double-delete",
+    "modelled by hand: _resolve_action_conflicts (with the repairs of fixes/C05-shared-action-cowin.diff, fixes/C05-identical-event-of-different-actions.diff — both applied — and the proposed fixes/C05-cowin-on-borrowed-action.diff, fixes/C05-cowin-double-delete.diff); get_event_from_element, _abort_flow, "
     "_advance_head_front are observed, not modelled",
 ]
 EXHAUSTIVE = {"quick": False, "thorough": False}
 
 KEYS = ["a", "b", "c", "d"]
+LOW_KEYS = ["a", "b", "c", "d", "e", "g", "h", "i", "j", "k"]
 LOOPS = [None, "L1", "L2"]
+LOW_PRIOS = ["0.1", "0.1", "0.1", "0.2", "0.05", "0.15", "0.3"]
 PRIOS = [None, None, None, "0.9", "0.5", "0.81", "1.0"]
 
 # ----------------------------------------------------------------------------- generators
@@ -63,7 +68,9 @@ def g_prog(rng):
         elif r < 0.12:
             pat["z"] = 1  # parameter the event does not carry
         shape = rng.choice(["direct", "direct", "direct", "await", "helper", "when"])
-        kind = "send" if shape != "when" and rng.random() < 0.2 else "action"
+        if rng.random() < 0.07:
+            shape = "borrow"  # the flow sends the Start event of an action it holds by reference but does not own
+        kind = "send" if shape not in ("when", "borrow") and rng.random() < 0.2 else "action"
         f = {
             "pat": pat,
             "prio": rng.choice(PRIOS),
@@ -74,10 +81,38 @@ def g_prog(rng):
             "ref": kind == "action" and shape in ("direct", "await") and rng.random() < 0.5,
         }
         f["stop_after"] = f["ref"] and rng.random() < 0.5
+        if rng.random() < 0.3:
+            f["swap"] = True  # keyword arguments of the action / event written in the other order
         flows.append(f)
+    if nloops == 1 and rng.random() < 0.08:
+        # every flow declares `@loop("NEW")`: each instance gets an interaction loop of its own, nobody competes
+        for f in flows:
+            f["loop"] = "NEW"
     case = {"kind": "prog", "payload": payload, "flows": flows, "mode": rng.choice(["start", "start", "activate"]),
             "followup": any(f["stop_after"] for f in flows)}
+    if rng.random() < 0.35:
+        case["args2"] = True  # every action / event of the pool carries a second keyword argument
     return case
+
+
+def g_prog_lowprio(rng):
+    """Flows of one loop with a LOW declared priority (0.1 is what the shipped library flows use) on an event with many
+    parameters, whose patterns mention neighbouring numbers of them: the scores are small (priority * 0.9^k), neighbouring
+    specificity levels are only 10 % of that apart — they must still never tie."""
+    npay = rng.choice([4, 5, 6, 7, 8, 9, 10])
+    payload = {k: rng.choice([1, 2]) for k in rng.sample(LOW_KEYS, npay)}
+    n = rng.choice([2, 2, 2, 3, 4])
+    prio = rng.choice(LOW_PRIOS)
+    base = rng.randrange(0, npay + 1)
+    flows = []
+    for i in range(n):
+        m = min(npay, max(0, base + rng.choice([0, 1, 1, -1, -1, 2])))
+        keys = rng.sample(list(payload), m)
+        shape = rng.choice(["direct", "direct", "direct", "await", "helper", "when"])
+        flows.append({"pat": {k: payload[k] for k in keys}, "prio": prio if rng.random() < 0.85 else rng.choice(LOW_PRIOS),
+                      "loop": None, "shape": shape, "kind": "action", "act": i if rng.random() < 0.85 else rng.randrange(n),
+                      "ref": False, "stop_after": False})
+    return {"kind": "prog", "payload": payload, "flows": flows, "mode": rng.choice(["start", "start", "activate"]), "followup": False}
 
 
 def g_prog_stop2(rng):
@@ -90,6 +125,22 @@ def g_prog_stop2(rng):
         flows.append({"pat": {"a": 1} if rng.random() < 0.5 else {}, "prio": rng.choice([None, None, "0.5"]), "loop": None, "shape": "direct",
                       "kind": "action", "act": rng.randrange(2), "ref": True, "stop_after": True,
                       "trigger": "E" if i == 0 else rng.choice(["E", "E2"])})
+    return {"kind": "prog", "payload": payload, "flows": flows, "mode": "start", "followup": True}
+
+
+def g_prog_restart(rng):
+    """Flows of ONE loop that co-win on an identical action at E (they share one Action object afterwards) and send its Start
+    event AGAIN on F, where a fresh flow starts the identical action as a new instance: when the fresh flow is picked, every
+    sharer co-wins with the same (shared) competing action."""
+    payload = {"a": 1}
+    n = rng.choice([2, 2, 3])
+    flows = []
+    for i in range(n):
+        flows.append({"pat": {"a": 1} if rng.random() < 0.5 else {}, "prio": None, "loop": None, "shape": "direct",
+                      "kind": "action", "act": 0 if rng.random() < 0.85 else 1, "ref": True, "stop_after": False, "restart_after": True})
+    for _ in range(rng.choice([1, 1, 2])):
+        flows.append({"pat": {}, "prio": rng.choice([None, None, "0.5"]), "loop": None, "shape": "direct", "kind": "action",
+                      "act": rng.choice([0, 0, 1]), "ref": rng.random() < 0.5, "stop_after": False, "trigger": "F"})
     return {"kind": "prog", "payload": payload, "flows": flows, "mode": "start", "followup": True}
 
 
@@ -133,7 +184,8 @@ def gen_cases(rng, tier):
     n_prog, n_fn = (400, 6000) if tier == "quick" else (10000, 150000)
     cases = []
     for _ in range(n_prog):
-        c = g_prog(rng) if rng.random() < 0.95 else g_prog_stop2(rng)
+        r = rng.random()
+        c = g_prog(rng) if r < 0.82 else (g_prog_lowprio(rng) if r < 0.92 else (g_prog_stop2(rng) if r < 0.96 else g_prog_restart(rng)))
         if tier == "quick":
             c["choices"] = [[rng.randrange(6) for _ in range(6)] for _ in range(3)]
         else:
@@ -150,39 +202,63 @@ def gen_cases(rng, tier):
 
 # ----------------------------------------------------------------------------- program rendering
 
-def action_stmt(f, i, loopname):
+def loop_name(f, i):
+    """the loop tag that is part of the action payload: declared loop, `M` (main), or one per flow for `@loop("NEW")`"""
+    if f["loop"] == "NEW":
+        return f"N{i}"
+    return f["loop"] or "M"
+
+
+def action_args(f, tag, key, second=False):
+    args = [f'{key}="{tag}"'] + (["n=1"] if second else [])
+    if f.get("swap"):
+        args.reverse()
+    return ", ".join(args)
+
+
+def action_stmt(f, i, loopname, second=False):
     tag = f"{loopname}-{f['act']}"
     if f["kind"] == "send":
-        return f'send Foo(x="{tag}")'
-    return f'start UtteranceBotAction(script="{tag}")' + (" as $r" if f["ref"] else "")
+        return f'send Foo({action_args(f, tag, "x", second)})'
+    return f'start UtteranceBotAction({action_args(f, tag, "script", second)})' + (" as $r" if f["ref"] else "")
 
 
 def render(case):
     out = []
+    a2 = bool(case.get("args2"))
     for i, f in enumerate(case["flows"]):
-        loopname = f["loop"] or "M"
+        loopname = loop_name(f, i)
         deco = f'@loop("{f["loop"]}")\n' if f["loop"] else ""
         pat = ", ".join(f"{k}={v}" for k, v in f["pat"].items())
         prio = [f"  priority {f['prio']}"] if f["prio"] else []
         body = []
+        head = f"flow f{i}"
         if f["shape"] == "await":
             out.append(f"flow u{i}\n  match E({pat})\n")
-            body += prio + [f"  await u{i}", "  " + action_stmt(f, i, loopname)]
+            body += prio + [f"  await u{i}", "  " + action_stmt(f, i, loopname, a2)]
         elif f["shape"] == "helper":
-            out.append(f"flow h{i}\n  {action_stmt(f, i, loopname)}\n  match Never()\n")
+            out.append(f"flow h{i}\n  {action_stmt(f, i, loopname, a2)}\n  match Never()\n")
             body += prio + [f"  match E({pat})", f"  start h{i}"]
         elif f["shape"] == "when":
-            body += prio + [f"  match E({pat})", f'  when UtteranceBotAction(script="{loopname}-{f["act"]}")', "    match Never()", "  else",
-                            "    $lost = True", "    match Never()"]
+            body += prio + [f"  match E({pat})", f'  when UtteranceBotAction({action_args(f, loopname + "-" + str(f["act"]), "script", a2)})',
+                            "    match Never()", "  else", "    $lost = True", "    match Never()"]
+        elif f["shape"] == "borrow":
+            # the owner o<i> starts the action (before the event) and hands the reference to f<i>, which starts it again on E
+            out.append(deco + f"flow o{i}\n  {action_stmt(f, i, loopname, a2)} as $r\n  start f{i}($r)\n  match Never()\n")
+            head = f"flow f{i} $r"
+            body += prio + [f"  match E({pat})", "  send $r.Start()"]
         else:
-            trig = f"E2({pat})" if f.get("trigger") == "E2" else f"E({pat})"
-            body += prio + [f"  match {trig}", "  " + action_stmt(f, i, loopname)]
+            trig = f"E2({pat})" if f.get("trigger") == "E2" else ("F()" if f.get("trigger") == "F" else f"E({pat})")
+            body += prio + [f"  match {trig}", "  " + action_stmt(f, i, loopname, a2)]
         if f.get("stop_after"):
             body += ["  match F()", "  send $r.Stop()"]
+        if f.get("restart_after"):
+            body += ["  match F()", "  send $r.Start()"]
         body.append("  match Never()")
-        out.append(deco + f"flow f{i}\n" + "\n".join(body) + "\n")
+        out.append(deco + head + "\n" + "\n".join(body) + "\n")
     kw = "activate" if case["mode"] == "activate" else "start"
-    out.append("flow main\n" + "".join(f"  {kw} f{i}\n" for i in range(len(case["flows"]))) + "  match Never()\n")
+    top = lambda i, f: ("o" if f["shape"] == "borrow" else "f") + str(i)  # noqa
+    out.append("flow main\n" + "".join(f"  {kw} {top(i, f)}\n" for i, f in enumerate(case["flows"])) + "  match Never()\n")
     return "\n".join(out)
 
 
@@ -447,7 +523,7 @@ def run_fn(case):
             else:
                 evmap[id(el)] = Event(name=f"Ev{h['ev']}", arguments={"k": h["ev"]})
         els.append(SpecOp(op="match", spec=Spec(name="CatchTarget")))
-        flow_configs[f"flow{f}"] = types.SimpleNamespace(elements=els, element_labels={"L": len(els) - 1}, id=f"flow{f}")
+        flow_configs[f"flow{f}"] = types.SimpleNamespace(elements=els, element_labels={"L": len(els) - 1}, id=f"flow{f}", loop_id=f"loop{heads[idxs[0]]['loop']}")
         flow_states[f"F{f}"] = types.SimpleNamespace(uid=f"F{f}", flow_id=f"flow{f}", loop_id=f"loop{heads[idxs[0]]['loop']}", context=ctx, action_uids=auids, scopes={})  # scopes: read by the co-win branch since /repo 2a6b31b
         for pos, i in enumerate(idxs):
             h = heads[i]
@@ -586,7 +662,8 @@ def call_expect(call):
         heads.append({
             "uid": _intern(uid, "h:" + str(h["uid"])), "flow": _intern(uid, "f:" + str(h["flow"])), "loop": _intern(uid, "l:" + str(h["loop"])),
             "scores": [rank[x] for x in h["scores"]], "ev": _intern(ev, (h["ev"]["name"], h["ev"]["args"])),
-            "act": (_intern(uid, h["ev"]["act"]) if h["ev"]["act"] else None), "nrefs": h["nrefs"], "catch": h["catch"], "start": bool(h.get("start"))})
+            "act": (_intern(uid, h["ev"]["act"]) if h["ev"]["act"] else None), "nrefs": h["nrefs"], "catch": h["catch"], "start": bool(h.get("start")),
+            "owns": h.get("in_uids") is not False})
     req = {"m": "C05.resolve", "one": rank[1.0], "heads": heads, "choices": [c for _, c in call["choice"]] or [],
            "tbl": [[_intern(uid, u), n] for u, n in call["tbl"]]}
     hu = [h["uid"] for h in call["heads"]]
@@ -631,6 +708,33 @@ def distinct_actions_identical_event(call):
             if k in seen and seen[k] != a:
                 return True
             seen.setdefault(k, a)
+    return False
+
+
+def borrowed_action_region(call):
+    """Region of the finding `cowin-on-borrowed-action`: a head whose Start event belongs to an action that is NOT in its
+    flow's action_uids (the flow holds the action by reference only) competes with a head of the same loop that carries the
+    equal event of another action instance."""
+    for h in call["heads"]:
+        if h["ev"]["act"] and h.get("in_uids") is False:
+            for o in call["heads"]:
+                if o is not h and o["loop"] == h["loop"] and o["ev"]["act"] and o["ev"]["act"] != h["ev"]["act"] \
+                        and (o["ev"]["name"], o["ev"]["args"]) == (h["ev"]["name"], h["ev"]["args"]):
+                    return True
+    return False
+
+
+def double_delete_region(call):
+    """Region of the finding `cowin-double-delete`: two heads of one loop carry the SAME action uid (co-winners of an earlier
+    round that share one action) and a third head of the loop carries the equal Start event of another action instance."""
+    for w in call["heads"]:
+        if not (w["ev"]["act"] and w.get("start")):
+            continue
+        same = [h for h in call["heads"] if h is not w and h["loop"] == w["loop"] and h["ev"]["act"] and h["ev"]["act"] != w["ev"]["act"]
+                and (h["ev"]["name"], h["ev"]["args"]) == (w["ev"]["name"], w["ev"]["args"])]
+        acts = [h["ev"]["act"] for h in same]
+        if len(acts) != len(set(acts)):
+            return True
     return False
 
 
@@ -733,6 +837,13 @@ def oracle_call(call):
     return None
 
 
+def _flow_index(flow_id):
+    """index i of the generated flow a competing head belongs to (f<i>, or its started helper h<i>)"""
+    if flow_id and flow_id[0] in "fh" and flow_id[1:].isdigit():
+        return int(flow_id[1:])
+    return None
+
+
 def spec_vector(case, f):
     """Specificity vector of flow f computed from the patterns (independent of the interpreter)."""
     unmentioned = len(case["payload"]) - len(f["pat"])
@@ -746,7 +857,7 @@ def spec_vector(case, f):
 
 
 def fits(case, f):
-    if f.get("trigger") == "E2":
+    if f.get("trigger") in ("E2", "F"):
         return False  # waits for another event: the first event must leave it untouched
     return all(k in case["payload"] and case["payload"][k] == v for k, v in f["pat"].items())
 
@@ -774,7 +885,7 @@ def oracle_run(case, run):
     for i, f in enumerate(flows):
         byloop.setdefault(loops[i], []).append(i)
     for loop, idx in byloop.items():
-        names = {flows[i]["loop"] or "M" for i in idx}
+        names = {loop_name(flows[i], i) for i in idx}
         if len(names) != 1:
             return f"flows declared in loops {names} share the runtime loop id {loop}"
         lname = names.pop()
@@ -804,6 +915,17 @@ def oracle_run(case, run):
             f = flows[i]
             return ("Foo" if f["kind"] == "send" else "StartUtteranceBotAction", f"{lname}-{f['act']}")
 
+        # "chosen arbitrarily among EXACT ties": two competing flows whose specificity differs never reach the tie-break together
+        for call in run["calls"][: step0.get("ncalls", 0)]:
+            hs = [(h, _flow_index(h["flow_id"])) for h in call["heads"] if h["loop"] == loop]
+            for a_, (h1, i1) in enumerate(hs):
+                for h2, i2 in hs[a_ + 1:]:
+                    if i1 is None or i2 is None or i1 == i2 or i1 not in comp or i2 not in comp or h1["scores"] != h2["scores"]:
+                        continue
+                    v1, v2 = spec_vector(case, flows[i1]), spec_vector(case, flows[i2])
+                    if not (_vec_ge(v1, v2) and _vec_ge(v2, v1)):
+                        return (f"loop {lname}: flows f{i1} and f{i2} carry equal score vectors {h1['scores']} (an exact tie, left to the random "
+                                f"tie-break) although their specificity differs ({v1} vs {v2})")
         winners = [i for i in comp if payload_of(i) == (wtype, wtag)]
         if not winners:
             return f"loop {lname}: started action {wtag} belongs to no competing flow"
@@ -859,9 +981,15 @@ def signature(case, obs, msg):
 
 def _signature(case, obs):
     try:
-        if any(distinct_actions_identical_event(c) for c in all_calls(case, obs)):
+        calls = all_calls(case, obs)
+        # most specific region first (the regions of the repaired findings overlap with the open ones)
+        if any(double_delete_region(c) for c in calls):
+            return "cowin-double-delete"
+        if any(borrowed_action_region(c) for c in calls):
+            return "cowin-on-borrowed-action"
+        if any(distinct_actions_identical_event(c) for c in calls):
             return "identical-event-of-different-actions"
-        if any(shared_action_region(c) for c in all_calls(case, obs)):
+        if any(shared_action_region(c) for c in calls):
             return "cowin-on-shared-action"
     except Exception:  # noqa
         return None
@@ -917,6 +1045,10 @@ def _tags(case, obs):
             t.append("shared-action-region")
         if distinct_actions_identical_event(c):
             t.append("identical-nonstart-event-of-different-actions")
+        if borrowed_action_region(c):
+            t.append("borrowed-action-region")
+        if double_delete_region(c):
+            t.append("double-delete-region")
     return t
 
 
